@@ -6,7 +6,7 @@ EXTENDS MC_ZoneFail
 
 VARIABLE cs   \* servers whose script has been drawn
 
-rest == <<idx, st, att, rt, ed, out, good, nerr, nfatal, hasNX, pc, ret, zoneRec, qRec, fkind, fhit>>
+rest == <<idx, st, att, rt, ed, out, good, nerr, nfatal, hasNX, hasConf, pc, ret, zoneRec, qRec, fkind, fhit>>
 
 SimInit == (\E pr \in Probes : InitWith([s \in Servers |-> <<"fast">>], pr)) /\ cs = 0
 Draw == /\ cs < N
